@@ -8,6 +8,7 @@ import (
 	"fmt"
 	"os"
 	"path/filepath"
+	"runtime/debug"
 	"strconv"
 	"strings"
 	"time"
@@ -123,17 +124,32 @@ func main() {
 	var rep *lint.Report
 	var lastCtx *lint.Ctx
 	for _, arch := range archs {
-		ctx, err := lint.Load(abs, arch, lint.ModulePath, 11)
-		if err != nil {
-			// A tree that does not load cannot be decided; report it as a violation of the meta rule so
-			// that the caller sees a failing check rather than a silent pass.
-			fmt.Println("CANNOT-DECIDE:", err)
-			os.Exit(2)
-		}
-		lastCtx = ctx
 		r := lint.NewReport(*prop, run.Level)
-		run.Fn(ctx, r)
-		r.Assumptions = append(r.Assumptions, ctx.AnchorNotes...)
+		// An internal error of the checker (a panic in a normalisation or a rule) on some tree is not a verdict
+		// on that tree, but it must not look like a pass or an unexplained crash either: it becomes one
+		// undecided obligation, reported like every other undecided one.
+		func() {
+			defer func() {
+				if p := recover(); p != nil {
+					stack := string(debug.Stack())
+					if len(stack) > 3000 {
+						stack = stack[:3000]
+					}
+					r.Add(lint.Obligation{Rule: "meta.checker-panic", Key: "internal error of the checker while analysing this tree", Pos: "-", Verdict: lint.Undecided, NonTrivial: true,
+						Detail: fmt.Sprintf("the analysis could not be completed (%v); nothing is decided for this tree\n%s", p, stack)})
+				}
+			}()
+			ctx, err := lint.Load(abs, arch, lint.ModulePath, 11)
+			if err != nil {
+				// A tree that does not load cannot be decided; report it as a violation of the meta rule so
+				// that the caller sees a failing check rather than a silent pass.
+				fmt.Println("CANNOT-DECIDE:", err)
+				os.Exit(2)
+			}
+			lastCtx = ctx
+			run.Fn(ctx, r)
+			r.Assumptions = append(r.Assumptions, ctx.AnchorNotes...)
+		}()
 		if rep == nil {
 			rep = r
 		} else {
@@ -146,7 +162,7 @@ func main() {
 		}
 	}
 	var problems []string
-	if *tier == "thorough" {
+	if *tier == "thorough" && lastCtx != nil {
 		sd := *seededDir
 		if sd == "" {
 			if exe, err := os.Executable(); err == nil {
